@@ -5,10 +5,13 @@ T_PLY = ["engine H harness /verif/go/harness (c04.go, c08.go, util_ply.go: gener
          "Go toolchain/runtime/stdlib (strconv, encoding/binary, bufio.Scanner, strings.Fields)"]
 
 CFG = dict(
-    theorems=["ply_put_get_32", "ply_put_get_64", "ply_wire_roundtrip_field", "ply_wire_roundtrip_record",
-              "ply_header_describes_body_counts", "ply_header_describes_body_schema",
+    theorems=["ply_wire_roundtrip_record", "ply_body_length_binary", "ply_header_describes_body_binary",
               "ply_header_describes_body_record_size", "ply_header_describes_body_face_size",
-              "ply_record_roundtrip_scalar", "ply_ascii_scalar_reads_raw", "ply_encodings_disagree_uchar_scalar"],
+              "ply_record_roundtrip_scalar", "ply_encodings_disagree_uchar_scalar",
+              "ply_encodings_disagree_uchar_scalar_concrete", "ply_quant_is_stored_precision"],
+    # proved, but subsumed / definitional: not counted as property theorems (ignored by the check)
+    helper_theorems=["ply_put_get_32", "ply_put_get_64", "ply_wire_roundtrip_field", "ply_header_shape",
+                     "ply_header_schema", "ply_ascii_scalar_reads_raw"],
     streams=[dict(name="c04", n=dict(quick=150, thorough=2500))],
     trusted=T_PLY,
     residue=["ply_roundtrip_full / ply_roundtrip_partial_stmt (whole file: writeMesh then readMesh satisfies RoundTrips) is a def … : Prop, NOT a theorem; it is evaluated on the implementation's write→read output by the c04.holds.roundtrip oracle on every generated mesh × configuration × encoding",
